@@ -34,6 +34,27 @@ def load_known():
     return []
 
 
+def run_review_script(rel, timeout=180):
+    """(reproduces?, last output line) of a demonstration script kept under /verif/review: exit code 1 and
+    FAIL on the current tree means the defect is still there, exit code 0 that it is gone"""
+    import os
+    import subprocess
+    import sys
+    script = HERE / rel
+    env = dict(os.environ, PYTHONPATH=str(source.REPO), PYTHONDONTWRITEBYTECODE="1")
+    try:
+        r = subprocess.run([sys.executable, str(script)], cwd=str(source.REPO), env=env, capture_output=True,
+                           text=True, timeout=timeout)
+    except Exception as ex:
+        return None, f"demonstration could not be run: {type(ex).__name__}"
+    out = (r.stdout.strip().splitlines() or [""])[-1]
+    if r.returncode == 1:
+        return True, out
+    if r.returncode == 0:
+        return False, out
+    return None, f"demonstration ended with exit code {r.returncode}: {(r.stderr.strip().splitlines() or [''])[-1][:200]}"
+
+
 def active_findings(pid):
     return [k for k in load_known() if k["property"] == pid and k["kind"] == "finding"]
 
@@ -553,6 +574,19 @@ class Run:
     def known_findings(self):
         # fixed defects: the stored witness must pass on the current tree
         for k in load_known():
+            if k["property"] == self.pid and k["kind"] == "fixed" and k.get("script"):
+                # a repaired review finding: its demonstration must pass on the current tree
+                ok, detail = run_review_script(k["script"])
+                self.extra.setdefault("fixed_witnesses_replayed", []).append({"id": k["id"], "passes_now": ok is False})
+                if ok:
+                    replay_dir = HERE / "replays"
+                    replay_dir.mkdir(exist_ok=True)
+                    fn = replay_dir / f"{self.pid}-regression-{k['id']}.json"
+                    fn.write_text(json.dumps({"property": self.pid, "script": k["script"], "replay": {"failed": True, "detail": detail},
+                                              "note": "demonstration of a defect recorded as fixed fails again"}, indent=1))
+                    print(f"  fixed defect {k['id']} has returned: {detail[:300]}")
+                    self.violations.append(f"VIOLATION property={self.pid} replay={fn.relative_to(HERE)}")
+                continue
             if k["property"] == self.pid and k["kind"] == "fixed" and k.get("witness") is not None \
                     and hasattr(self.mod, "replay"):
                 w = _denan(k["witness"])
@@ -576,7 +610,11 @@ class Run:
             k["witness"] = _denan(k.get("witness"))
             ok = None
             detail = ""
-            if hasattr(self.mod, "replay") and k.get("witness") is not None:
+            if k.get("script"):
+                # a finding of the code review (a defect of dclab outside what the contracts of this property
+                # decide): its demonstration script is run on the current tree on every check
+                ok, detail = run_review_script(k["script"])
+            elif hasattr(self.mod, "replay") and k.get("witness") is not None:
                 try:
                     out = self.mod.replay(k["unit"], k["witness"], k.get("obligation", ""))
                     ok = bool(out.get("failed"))
